@@ -4,6 +4,7 @@ package conc
 
 import (
 	"net/http"
+	"strings"
 	"testing/fstest"
 	"time"
 
@@ -42,7 +43,7 @@ func Profile() *world.Profile {
 		Envs:      []int{1, 2},
 		HeadersPm: 120,
 		NamedPm:   500,
-		MaxActs:   3, NextMax: 1, RetW: []int{5, 1, 1},
+		MaxActs:   3, NextMax: 1, RetW: []int{16, 1, 1},
 		FinalEcho: true,
 		PanicPm:   60, MissingPm: 40, BadStatus: 0, WFaultPm: 60, CancelPm: 60, DeadlinePm: 60, FaultFree: 400,
 		MinTasks: 2, MaxTasks: 8, MinReqs: 1, MaxReqs: 4,
@@ -56,10 +57,12 @@ func Profile() *world.Profile {
 		world.ShRWReqTok: 1, world.ShCtxRender: 2, world.ShCtxSvc: 0} {
 		p.Shapes[i] = w
 	}
+	p.MwShapes = append([]int{}, p.Shapes...)
+	p.MwShapes[world.ShCtxIntStr], p.MwShapes[world.ShCtxIntErr], p.MwShapes[world.ShTeapot] = 0, 0, 0
 	p.Ops = make([]int, 20)
-	for i, w := range map[int]int{world.OpYield: 4, world.OpWriteHeader: 1, world.OpWrite: 1, world.OpFlush: 0, world.OpNext: 3, world.OpNextSwallow: 1,
-		world.OpCancel: 0, world.OpMapExtra: 1, world.OpSeeExtra: 3, world.OpEcho: 1, world.OpMark: 3, world.OpCheckMark: 3, world.OpSetHeader: 2,
-		world.OpBefore: 1, world.OpRender: 1, world.OpRedirect: 0, world.OpStatus: 2, world.OpCookie: 1, world.OpSeeSvc: 1} {
+	for i, w := range map[int]int{world.OpYield: 5, world.OpWriteHeader: 0, world.OpWrite: 0, world.OpFlush: 0, world.OpNext: 4, world.OpNextSwallow: 1,
+		world.OpCancel: 0, world.OpMapExtra: 2, world.OpSeeExtra: 4, world.OpEcho: 0, world.OpMark: 4, world.OpCheckMark: 4, world.OpSetHeader: 3,
+		world.OpBefore: 1, world.OpRender: 1, world.OpRedirect: 0, world.OpStatus: 2, world.OpCookie: 1, world.OpSeeSvc: 2} {
 		p.Ops[i] = w
 	}
 	return p
@@ -86,6 +89,10 @@ func (Engine) Run(t *tape.Tape, o eng.Opts) *eng.Result {
 	if sw.Intn(4) == 1 {
 		p.MaxActs = 5
 		p.NextMax = 2
+	}
+	if sw.Intn(4) == 1 { // early writes by middleware (most runs let requests reach their route)
+		p.Ops[world.OpWrite], p.Ops[world.OpWriteHeader], p.Ops[world.OpFlush] = 2, 1, 1
+		p.RetW = []int{5, 1, 1}
 	}
 	cfg := sched.Config{Sched: t.Stream("sched"), Time: t.Stream("time"), MaxSteps: world.StepCap(6000)}
 	switch sw.Weighted(1, 4, 4, 3) {
@@ -257,6 +264,50 @@ func (Engine) Run(t *tape.Tape, o eng.Opts) *eng.Result {
 	}
 
 	// Reach probes.
+	for _, q := range all {
+		if q.W == nil {
+			continue
+		}
+		b := string(q.W.Body)
+		i := strings.Index(b, " route=")
+		if i < 0 {
+			if q.W.Code == 404 {
+				res.Probes["answered:not-found"]++
+			} else {
+				res.Probes["answered:by-middleware-or-static"]++
+			}
+			continue
+		}
+		pat := b[i+7:]
+		if j := strings.Index(pat, " p."); j >= 0 {
+			pat = pat[:j]
+		} else if j := strings.Index(pat, " extra="); j >= 0 {
+			pat = pat[:j]
+		}
+		switch {
+		case strings.Contains(pat, "**"):
+			res.Probes["route-kind:match-all"]++
+		case strings.Contains(pat, "/?"):
+			res.Probes["route-kind:optional"]++
+		case strings.Contains(pat, ": /"):
+			res.Probes["route-kind:regex"]++
+		case strings.Contains(pat, "{"):
+			res.Probes["route-kind:placeholder"]++
+		case pat == "":
+			res.Probes["route-kind:none(not-found chain)"]++
+		default:
+			res.Probes["route-kind:static-shortcut"]++
+		}
+		if strings.Contains(b, " url=") {
+			res.Probes["named_route_url_built"]++
+		}
+		for _, kv := range q.Hdr {
+			if kv[0] == "X-Gate" && (strings.HasSuffix(pat, "/h") || strings.Contains(b, "hdr=")) && kv[1] == "open" {
+				res.Probes["header_gate_open_requests"]++
+				break
+			}
+		}
+	}
 	if len(setup.Mw) != 0 && len(setup.Mw) != 1 && len(setup.Mw) != 2 && len(setup.Mw) != 4 && len(setup.Mw) != 8 {
 		res.Probes["middleware_slice_spare_capacity_likely"]++
 	}
